@@ -132,7 +132,10 @@ def hist_predicate(line, out):
             if not t.startswith("s:"):
                 bad.append("sending a valid message failed (%s)" % t)
                 continue
-            _, rep, wire, flag = t.split(":")
+            parts = t.split(":")
+            if len(parts) > 4:
+                bad.append("SendMessageContext::serial() is %s but write_all returned %s" % (parts[4][3:], parts[1]))
+            _, rep, wire, flag = parts[:4]
             rep, wire = int(rep), int(wire)
             if rep != wire:
                 bad.append("reported serial %d but the header on the wire carries %d" % (rep, wire))
